@@ -14,7 +14,7 @@ def fresh_clone():
     sh(["git", "clone", "-q", "/repo", CLONE])
 
 def run(seed, pid, tier, jobs):
-    env = dict(os.environ, VERIF_REPO=CLONE, VERIF_MAX_REPLAY="2")
+    env = dict(os.environ, VERIF_REPO=CLONE, VERIF_MAX_REPLAY="2", VERIF_EVIDENCE_DIR="/var/tmp/asefile-seed-evidence", VERIF_REPLAY_ROOT="/var/tmp/asefile-seed-replays/" + seed)
     t0 = time.time()
     p = sh([os.path.join(VERIF, "check"), pid, "--tier", tier, "--jobs", str(jobs)], env=env, cwd=VERIF)
     viol = [l for l in p.stdout.splitlines() if l.startswith("VIOLATION") or l.startswith("  harness=")]
